@@ -321,6 +321,8 @@ class Interp:
                 v = sub(a, b)
             elif op == 'Mul':
                 v = mul(a, b)
+                if getattr(self, 'observe_mul', None) is not None:
+                    self.observe_mul(body, s, a, b)
             elif op == 'Div':
                 v = div(a, b)
             elif op in ('Lt', 'Le', 'Gt', 'Ge', 'Eq', 'Ne'):
